@@ -12,5 +12,6 @@ func TestMain(m *testing.M) {
 		"C16":      C16,
 		"C14mcrew": C14mcrew,
 		"C13mcrew": C13mcrew,
+		"C17glue":  C17glue,
 	})
 }
